@@ -60,6 +60,7 @@ var driverFaults = map[string][]fault{
 	seams.SQLExec:     {{"error", errors.New("injected: database or disk is full"), false}, {"error_after", errors.New("injected: interrupted"), true}},
 	seams.SQLCommit:   {{"error_nothing_committed", errors.New("injected: disk I/O error"), false}, {"error_after_commit", errors.New("injected: commit reported failed after it happened"), true}},
 	seams.SQLRollback: {{"error", errors.New("injected: disk I/O error"), false}},
+	seams.SQLNext:     {{"error", errors.New("injected: database is locked"), false}},
 }
 
 var fileN atomic.Int64
@@ -645,7 +646,7 @@ func one(run *ev.Run, unit int64, b *bench, q req, what, scen string, disarm fun
 		if !bytes.Equal(after, before) {
 			run.Violate("state_changed_by_refusable_request;"+scen+";op="+op, "the stored checkpoint changed although the request must be refused", unit, detail)
 		}
-		if scen == "tofu_attack" && *fired && (op == seams.OpWGet || op == seams.SQLQuery) {
+		if scen == "tofu_attack" && *fired && (op == seams.OpWGet || op == seams.SQLQuery || op == seams.SQLNext) {
 			run.Count("tofu_attack_with_read_fault")
 		}
 	} else if !bytes.Equal(after, before) {
